@@ -765,7 +765,8 @@ class introduction(Method):
         state.check_proof(compute_only=True)
 
         # Test if the goal is already proved
-        for item in cur_item.subproof.items:
+        # (the last item concludes the block, and is never replaced)
+        for item in cur_item.subproof.items[:-1]:
             new_id = state.find_goal(state.get_proof_item(item.id).th, item.id)
             if new_id is not None:
                 state.replace_id(item.id, new_id)
